@@ -69,6 +69,14 @@ claim("C18", "other",
       "symbolic execution with LAPACK contract stubs (symbolic labels fork lazily) + z3",
       "DESIGN.md section 1, C18")
 
+claim("C05", "other",
+      "Real compress() under each truncation criterion on canonical 2-3 site chains (symbolic tensors, LAPACK by contract, both directions) with a call-through spy "
+      "on the decomposition: bond limit of the right bond index, 1 <= m <= len(sigma), exact threshold set, the updated pair equals the m leading (u,sigma,v) triples, and for one "
+      "bond of a canonical state squared distance = discarded weight, norm non-increasing; CompressConfig.compute_m_trunc on symbolic sorted singular values.",
+      "LAPACK by contract; the multi-bond error bound is the textbook consequence of the one-bond identity and is not re-derived; trees are under C11.",
+      "symbolic execution with LAPACK contract stubs + polynomial reduction modulo orthonormality hypotheses + z3",
+      "DESIGN.md section 1, C05")
+
 for pid in ["C%02d" % i for i in range(1, 21)]:
     if pid not in CHECKS:
         NA[pid] = "check not built yet (build in progress; see DESIGN.md)"
